@@ -67,30 +67,30 @@ def emptyProj : Proj := { binding := [] }
     been collected and nothing else has changed. -/
 theorem one_proj (h : Head) (hw : h.wproj = emptyProj) (p : PAst) (hp : p.ok) :
     ∃ h', varRun h none p.toks = some (h', none) ∧ h'.flush = { h with projs := h.projs ++ [p.denote] } := by
-  obtain ⟨projs, wproj, graphs, groupBy, order, limit, lower, upper⟩ := h
+  obtain ⟨projs, wproj, graphs, groupBy, order, limit, lower, upper, kind, graphNames, outputs, data, ccs⟩ := h
   simp only at hw
   subst hw
   cases p with
   | plain b =>
     simp only [PAst.ok] at hp
-    refine ⟨{ projs := projs, wproj := { binding := b }, graphs := graphs, groupBy := groupBy, order := order, limit := limit, lower := lower, upper := upper }, by simp [PAst.toks, varRun, varStep, tk, emptyProj], ?_⟩
+    refine ⟨{ projs := projs, wproj := { binding := b }, graphs := graphs, groupBy := groupBy, order := order, limit := limit, lower := lower, upper := upper, kind := kind, graphNames := graphNames, outputs := outputs, data := data, ccs := ccs }, by simp [PAst.toks, varRun, varStep, tk, emptyProj], ?_⟩
     simp [Head.flush, projIsEmpty, PAst.denote, hp, emptyProj]
   | aliased b a =>
     simp only [PAst.ok] at hp
     refine ⟨({ projs := projs, wproj := { binding := b, alias := a }, graphs := graphs, groupBy := groupBy, order := order,
-               limit := limit, lower := lower, upper := upper } : Head).flush,
+               limit := limit, lower := lower, upper := upper, kind := kind, graphNames := graphNames, outputs := outputs, data := data, ccs := ccs } : Head).flush,
       by simp [PAst.toks, varRun, varStep, tk, hp, emptyProj], ?_⟩
     simp [Head.flush, projIsEmpty, PAst.denote, hp, emptyProj]
   | count b a d =>
     simp only [PAst.ok] at hp
     refine ⟨({ projs := projs, wproj := { binding := b, alias := a, op := .count, distinct := d }, graphs := graphs, groupBy := groupBy,
-               order := order, limit := limit, lower := lower, upper := upper } : Head).flush,
+               order := order, limit := limit, lower := lower, upper := upper, kind := kind, graphNames := graphNames, outputs := outputs, data := data, ccs := ccs } : Head).flush,
       by cases d <;> simp [PAst.toks, varRun, varStep, tk, hp, emptyProj], ?_⟩
     simp [Head.flush, projIsEmpty, PAst.denote, hp, emptyProj]
   | sum b a =>
     simp only [PAst.ok] at hp
     refine ⟨({ projs := projs, wproj := { binding := b, alias := a, op := .sum }, graphs := graphs, groupBy := groupBy,
-               order := order, limit := limit, lower := lower, upper := upper } : Head).flush,
+               order := order, limit := limit, lower := lower, upper := upper, kind := kind, graphNames := graphNames, outputs := outputs, data := data, ccs := ccs } : Head).flush,
       by simp [PAst.toks, varRun, varStep, tk, hp, emptyProj], ?_⟩
     simp [Head.flush, projIsEmpty, PAst.denote, hp, emptyProj]
 
